@@ -268,6 +268,14 @@ PROPS = {
 for _k, _v in PROPS.items():
     _v.setdefault("project", proj_all)
 # the properties whose Props file also asserts the sliced field programs of their own functions: when that
+# kernel layers: which limb-kernel theorem files (C05 = field.go kernels, C06 = modnscalar.go kernels) each property's
+# value-level model computes through; their lake targets are built as part of the property's check
+for _k, _l in {"C01": ["C05", "C06"], "C02": ["C05", "C06"], "C03": ["C05", "C06"], "C04": ["C05"], "C07": ["C05", "C06"], "C08": ["C05"],
+               "C09": ["C06"], "C10": ["C06"], "C11": ["C05", "C06"], "C12": ["C05", "C06"], "C13": ["C05"], "C14": ["C05", "C06"],
+               "C15": ["C05", "C06"], "C16": ["C05"], "C19": ["C06"], "C20": ["C05", "C06"]}.items():
+    PROPS[_k]["layers"] = _l
+    PROPS[_k]["level_note"] = PROPS[_k].get("level_note", "") + " The check also rebuilds the limb-kernel theorem files this model stands on (" + ", ".join(_l) + ": regenerated kernels of " + " and ".join({"C05": "field.go", "C06": "modnscalar.go"}[x] for x in _l) + "), so a kernel that no longer meets its specification fails this property too."
+
 # obligation breaks and the correspondence finds no input, name the function / path / item as the witness
 for _k in ("C01", "C02", "C03", "C04", "C07", "C08", "C11", "C12", "C13", "C14", "C15"):
     PROPS[_k].setdefault("static_search", c16_static_search)
